@@ -608,20 +608,29 @@ def arrayLayout (m : Mode) (l : List EV) : Bool × Bool :=
   let big := decide (n > 0) && (isArrV v0 || isObjV v0 || isStrV v0)
   (multi, big)
 
-/-- `const char* Var::operator*()` (src/Var.cpp): the C string a Var stands for -/
-def varCStr : EV → Bytes
-  | .str s => s
-  | .arr _ => [91, 63, 93]            -- "[?]"
-  | .obj _ => [123, 63, 125]          -- "{?}"
-  | .null => [110, 117, 108, 108]     -- "null"
-  | .none => []
-  | .bool b => if b then [116, 114, 117, 101] else [102, 97, 108, 115, 101]
-  | _ => [63]                         -- "?" (INT, NUMBER, FLOAT)
+/-- `isClassName` (src/Xdl.cpp) on the C string of a STRING `Var`: first character a letter, `_` or `$`, then letters,
+    digits, `_`, `.`, and none of the words the decoder reads as a boolean or null -/
+def isClsNameB (s : Bytes) : Bool :=
+  match s with
+  | [] => false
+  | c0 :: cs =>
+    ((isAlnum c0 && !isDigit c0) || c0 = 95 || c0 = 36) && cs.all (fun c => isAlnum c || c = 95 || c = 46)
+      && !(decide (s = [89]) || decide (s = [78]) || decide (s = [116, 114, 117, 101])
+            || decide (s = [102, 97, 108, 115, 101]) || decide (s = [110, 117, 108, 108]))
 
-/-- the XDL class name: `**cname` of the `$type` member (`v.getp(ASL_XDLCLASS)`), whatever its type -/
+/-- the class name a `$type` member gives its object, if it can be written in class notation -/
+def clsName : EV → Option Bytes
+  | .str s => if isClsNameB s then some s else none
+  | _ => none
+
+/-- the XDL class name: the `$type` member (`v.getp(ASL_XDLCLASS)`) when `isClassName` accepts it; otherwise
+    `cname = 0` and the member is written as an ordinary property -/
 def classOf : List (Bytes × EV) → Option Bytes
   | [] => none
-  | (k, v) :: t => if k = classKey then some (varCStr v) else classOf t
+  | (k, v) :: t => if k = classKey then clsName v else classOf t
+
+/-- the member the encoder leaves out because it is written as the class name (`&value == cname`) -/
+def skipCls (k : Bytes) (v : EV) : Bool := decide (k = classKey) && (clsName v).isSome
 
 mutual
 /-- `_encode(v)` at indentation `_level = lvl` as a pure function (string sink) -/
@@ -652,7 +661,7 @@ def encItems (g : Nat → UInt64 → Bytes) (m : Mode) (lvl : Nat) (multi big : 
 def encMembers (g : Nat → UInt64 → Bytes) (m : Mode) (lvl : Nat) : Bool → List (Bytes × EV) → Bytes
   | _, [] => []
   | started, (k, v) :: t =>
-    if okV v && (m.json || k ≠ classKey) then
+    if okV v && (m.json || !skipCls k v) then
       (if started then sep2 m else []) ++ (if m.pretty then 10 :: indentOf lvl else [])
         ++ (if m.json then encString k ++ (if m.pretty then [58, 32] else [58]) else k ++ [61])
         ++ enc g m lvl v ++ encMembers g m lvl true t
@@ -702,7 +711,7 @@ def encItemsW (g : Nat → UInt64 → Bytes) (m : Mode) (lvl : Nat) (multi big :
 def encMembersW (g : Nat → UInt64 → Bytes) (m : Mode) (lvl : Nat) : Bool → List (Bytes × EV) → W → W
   | _, [], w => w
   | started, (k, v) :: t, w =>
-    if okV v && (m.json || k ≠ classKey) then
+    if okV v && (m.json || !skipCls k v) then
       let w := w.emit ((if started then sep2 m else []) ++ (if m.pretty then 10 :: indentOf lvl else [])
         ++ (if m.json then encString k ++ (if m.pretty then [58, 32] else [58]) else k ++ [61]))
       encMembersW g m lvl true t (encW g m lvl v w)
